@@ -16,7 +16,8 @@ REDUCE_KEYS = ["pdb"]
 LEVEL = "exploration"
 RULE = ("structures (several chains incl. lower-case/digit ids, insertion codes, negative numbers, ligands, ions, "
         "bridged and free CYS) x residue lists rendered as chain:num[icode]: random subsets, singletons, all residues, "
-        "lists with phantom residues/chains, duplicates, any order. Non-trivial: a listed reported group has, in the "
+        "lists with phantom residues/chains, duplicates, any order; API histories in which one options object serves "
+        "2-3 calculations with different lists. Non-trivial: a listed reported group has, in the "
         "option-free run, determinants from both listed and unlisted partners (or, for the all-residues clause, the "
         "structure has >= 2 groups with determinants); distinct by hash of (input, list).")
 ASSUMPTIONS = [
@@ -68,8 +69,7 @@ def check_case(case):
             miss = [g0[k]["label"] for k in exp - got][:4]
             extra = [g1[k]["label"] for k in got - exp][:4]
             v.append({"clause": "reported==listed", "detail": "conf %s: missing %r, unexpected %r (list %s)" % (
-                c, miss, extra, arg[:100]),
-                      "sig": common.twin_sig(text, [k[0] for k in (exp - got) | (got - exp)])})
+                c, miss, extra, arg[:100])})
             break
         if c == "AVR":
             continue
@@ -167,7 +167,41 @@ def check_case(case):
     return v, {"nontrivial": nontrivial, "labels": labels}
 
 
+def shared_options_case(case):
+    """One options object used for several calculations with different lists (API): every calculation must report
+    exactly what a run with fresh options and that list reports."""
+    import io
+    from propka.input import read_parameter_file, read_molecule_file
+    from propka.lib import loadOptions, parse_res_list
+    from propka.molecular_container import MolecularContainer
+    from propka.parameters import Parameters
+    text = case["pdb"]
+    options = loadOptions(["shared.pdb"])
+    v = []
+    for step, listed in enumerate(case["lists"]):
+        arg = render([tuple(x) for x in listed]) if listed is not None else None
+        want = observe.run(text, ["-i", arg] if arg else [], name="a")
+        if want["error"]:
+            return [], {"labels": ["base-error"]}
+        options.titrate_only = parse_res_list(arg) if arg else None
+        parameters = read_parameter_file(options.parameters, Parameters())
+        mol = MolecularContainer(parameters, options)
+        mol = read_molecule_file("shared.pdb", mol, stream=io.StringIO(text))
+        mol.calculate_pka()
+        got = sorted((g.label, g.pka_value) for g in mol.conformations["AVR"].get_groups_for_calculations())
+        exp = sorted((g["label"], g["pka"]) for g in want["confs"]["AVR"]["groups"] if g["reported"])
+        if [x[0] for x in got] != [x[0] for x in exp] or any(abs(a[1] - b[1]) > 1e-9 for a, b in zip(got, exp)):
+            v.append({"clause": "shared-options==fresh-options", "detail": "calculation %d of %d with one options "
+                      "object, list %s: reported %r, a run with fresh options reports %r" % (
+                          step + 1, len(case["lists"]), (arg or "none")[:80],
+                          [x for x in got if x not in exp][:4], [x for x in exp if x not in got][:4])})
+            break
+    return v, {"labels": ["shared-options:%d" % len(case["lists"])], "nontrivial": len(case["lists"]) > 1}
+
+
 def replay(case):
+    if case.get("kind") == "shared-options":
+        return shared_options_case(case)[0]
     return check_case(case)[0]
 
 
@@ -245,6 +279,32 @@ def run_shard(ctx):
         ctx.account(case, v, ci)
 
     ctx.hypothesis_stage("multi-conformation-lists", conf_cases(), conf_body, 500 if quick else 8000)
+
+    @st.composite
+    def shared_cases(draw):
+        s = draw(gen.structures(max_res=24 if quick else 50, allow_icode=True))
+        entries = [e.copy() if isinstance(e, Atom) else e for e in s.entries]
+        for a in pdbio.atoms_of(entries):
+            if a.chain == " ":
+                a.chain = "Q"
+        ids = residue_ids(entries)
+        lists = []
+        for _ in range(draw(st.integers(2, 3))):
+            if draw(st.integers(0, 4)) == 0:
+                lists.append(None)
+            else:
+                lists.append([list(r) for r in ids if draw(st.booleans())] or [list(ids[0])])
+        return s, pdbio.write(entries), lists
+
+    def shared_body(t):
+        s, text, lists = t
+        case = {"kind": "shared-options", "pdb": text, "lists": lists}
+        v, info = shared_options_case(case)
+        info["sample"] = {"structure": s.summary(), "lists": [render([tuple(x) for x in l])[:80] if l else None
+                                                               for l in lists]}
+        ctx.account(case, v, info)
+
+    ctx.hypothesis_stage("one-options-object-several-lists", shared_cases(), shared_body, 300 if quick else 4000)
 
     # the repository's own bridged structure: listing everything / cysteines only
     if ctx.shard == 0:
